@@ -23,6 +23,11 @@ structure XS where
   end of the block, where it is deleted with whatever it then holds (app/state_processor.go Process: no Finalise between the
   transactions of a block; state/statedb.go Finalise deletes suicided objects) -/
   killed : List Nat := []
+  /-- real genesis (system contracts): `yw` the award payees' balances in WEI (candidate coinbases, then their supporters);
+  `fw` what the foundation contract has paid out in awards so far, in WEI.  Awards are not whole commitment units, so this part
+  of the observation is kept in wei: the foundation's balance is `found · 10^10 − fw` -/
+  yw : List Int := []
+  fw : Int := 0
 deriving Repr, Inhabited
 
 inductive Bk where
@@ -38,6 +43,9 @@ inductive Prim where
   | burn (b : Bk)
   /-- the bucket's contract executed SELFDESTRUCT: it is deleted at the end of the block -/
   | kill (b : Bk)
+  /-- the foundation contract pays payee `k` an award of `wei` out of its own balance (app/app.go AllocAward →
+  contract/v1/foundation allocAward: TC_Transfer; the amount is an input, the model does not execute WASM) -/
+  | award (k : Nat) (wei : Int)
 deriving Repr, Inhabited
 
 def getBk (s : St) (x : XS) (tok : Bool) : Bk → Int
@@ -70,6 +78,7 @@ def applyPrim (sx : St × XS) : Prim → St × XS
     match b with
     | .x k => (sx.1, { sx.2 with killed := sx.2.killed ++ [k] })
     | _ => sx
+  | .award k wei => (sx.1, { sx.2 with yw := addAt sx.2.yw k wei, fw := sx.2.fw + wei })
 
 def applyPrims (sx : St × XS) (ps : List Prim) : St × XS := ps.foldl applyPrim sx
 
@@ -85,5 +94,14 @@ def applyBlock (sx : St × XS) (txs : List (List Prim)) : St × XS := endBlock (
 /-- total native / token value over everything observed -/
 def nativeTotal (s : St) (x : XS) : Int := supply s + x.xb.sum
 def tokenTotal (s : St) (x : XS) : Int := tokSupply s + x.xt.sum
+
+/-- one commitment unit in wei -/
+def unitWei : Int := 10000000000
+
+/-- total native value over everything observed, in wei, payees of awards included -/
+def nativeTotalWei (s : St) (x : XS) : Int := nativeTotal s x * unitWei - x.fw + x.yw.sum
+
+/-- the foundation contract's balance in wei: the fees credited to it minus the awards it has paid -/
+def foundationWei (s : St) (x : XS) : Int := s.found * unitWei - x.fw
 
 end Model.Ledger
